@@ -15,15 +15,75 @@ import BSModel.Gen.ConstructTab
     ones mirror the repaired code. CPython's tokenizer (`html.parser.HTMLParser.goahead`) and codecs are parameters. -/
 namespace BS.Construct
 
-/-- the exception classes that can be seen from the constructor -/
+/-- Python exception classes: the built-in ones that the layers under the constructor raise, catch or let through,
+    bs4's own, and two open families for everything else. A raised exception is identified with its exact class; `sup`
+    is its method resolution order (`Gen/C06Exc.lean` holds the `__mro__` of the live classes, `mro_table` compares). -/
 inductive Err where
-  | parserRejectedMarkup        -- bs4.exceptions.ParserRejectedMarkup
-  | assertionError              -- raised by html.parser / _markupbase for markup it gives up on
-  | valueError                  -- `int(<more than sys.int_max_str_digits decimal digits>)`, `int("")`, …
-  | unicodeEncodeError          -- `str.encode("utf8")` on a lone surrogate
-  | unicodeError                -- a codec's `decode` raising `UnicodeError` that is not a `UnicodeDecodeError`
-  | other (k : Nat)             -- any other exception class
+  | baseException | exception
+  | keyboardInterrupt | systemExit | generatorExit
+  | arithmeticError | overflowError | zeroDivisionError
+  | assertionError | attributeError
+  | lookupError | indexError | keyError
+  | valueError | unicodeError | unicodeDecodeError | unicodeEncodeError | unicodeTranslateError
+  | typeError | runtimeError | recursionError | notImplementedError | memoryError | stopIteration | osError
+  | importError | nameError
+  | parserRejectedMarkup        -- bs4.exceptions.ParserRejectedMarkup(Exception)
+  | featureNotFound             -- bs4.exceptions.FeatureNotFound(ValueError)
+  | stopParsing                 -- bs4.exceptions.StopParsing(Exception)
+  | warningClass                -- Warning and its subclasses (a warning turned into an error by the user's filters)
+  | other (k : Nat)             -- any further direct subclass of Exception (user-defined, third party)
+  | otherBase (k : Nat)         -- any further direct subclass of BaseException
 deriving DecidableEq, Repr
+
+/-- the class itself followed by its base classes (`cls.__mro__` without `object`) -/
+def Err.sup : Err → List Err
+  | .baseException => [.baseException]
+  | .exception => [.exception, .baseException]
+  | .keyboardInterrupt => [.keyboardInterrupt, .baseException]
+  | .systemExit => [.systemExit, .baseException]
+  | .generatorExit => [.generatorExit, .baseException]
+  | .arithmeticError => [.arithmeticError, .exception, .baseException]
+  | .overflowError => [.overflowError, .arithmeticError, .exception, .baseException]
+  | .zeroDivisionError => [.zeroDivisionError, .arithmeticError, .exception, .baseException]
+  | .assertionError => [.assertionError, .exception, .baseException]
+  | .attributeError => [.attributeError, .exception, .baseException]
+  | .lookupError => [.lookupError, .exception, .baseException]
+  | .indexError => [.indexError, .lookupError, .exception, .baseException]
+  | .keyError => [.keyError, .lookupError, .exception, .baseException]
+  | .valueError => [.valueError, .exception, .baseException]
+  | .unicodeError => [.unicodeError, .valueError, .exception, .baseException]
+  | .unicodeDecodeError => [.unicodeDecodeError, .unicodeError, .valueError, .exception, .baseException]
+  | .unicodeEncodeError => [.unicodeEncodeError, .unicodeError, .valueError, .exception, .baseException]
+  | .unicodeTranslateError => [.unicodeTranslateError, .unicodeError, .valueError, .exception, .baseException]
+  | .typeError => [.typeError, .exception, .baseException]
+  | .runtimeError => [.runtimeError, .exception, .baseException]
+  | .recursionError => [.recursionError, .runtimeError, .exception, .baseException]
+  | .notImplementedError => [.notImplementedError, .runtimeError, .exception, .baseException]
+  | .memoryError => [.memoryError, .exception, .baseException]
+  | .stopIteration => [.stopIteration, .exception, .baseException]
+  | .osError => [.osError, .exception, .baseException]
+  | .importError => [.importError, .exception, .baseException]
+  | .nameError => [.nameError, .exception, .baseException]
+  | .parserRejectedMarkup => [.parserRejectedMarkup, .exception, .baseException]
+  | .featureNotFound => [.featureNotFound, .valueError, .exception, .baseException]
+  | .stopParsing => [.stopParsing, .exception, .baseException]
+  | .warningClass => [.warningClass, .exception, .baseException]
+  | .other k => [.other k, .exception, .baseException]
+  | .otherBase k => [.otherBase k, .baseException]
+
+/-- the classes the model knows by name -/
+def Err.named : List Err :=
+  [.baseException, .exception, .keyboardInterrupt, .systemExit, .generatorExit, .arithmeticError, .overflowError,
+   .zeroDivisionError, .assertionError, .attributeError, .lookupError, .indexError, .keyError, .valueError, .unicodeError,
+   .unicodeDecodeError, .unicodeEncodeError, .unicodeTranslateError, .typeError, .runtimeError, .recursionError,
+   .notImplementedError, .memoryError, .stopIteration, .osError, .importError, .nameError, .parserRejectedMarkup,
+   .featureNotFound, .stopParsing, .warningClass]
+
+/-- `issubclass(e, c)` -/
+def Err.isSub (e c : Err) : Bool := e.sup.contains c
+
+/-- does `except (c₁, c₂, …)` catch an exception of class `e`? -/
+def catches (clause : List Err) (e : Err) : Bool := clause.any e.isSub
 
 deriving instance DecidableEq for Except
 
@@ -41,7 +101,7 @@ def Markup.units : Markup → List Nat
 
 /-- `len(markup) <= 256 and ("<" not in markup and "\n" not in markup)` (bs4/__init__.py:445-448), same for bytes -/
 def heuristicsGuard (m : Markup) : Bool :=
-  decide (m.units.length ≤ Gen.heuristicsMaxLen) && !(m.units.contains 60) && !(m.units.contains 10)
+  decide (m.units.length ≤ Gen.C06.heuristicsMaxLen) && !(m.units.contains 60) && !(m.units.contains 10)
 
 /-- `sub in s` for a non-empty pattern -/
 def hasInfix (p : List Nat) : List Nat → Bool
@@ -50,7 +110,7 @@ def hasInfix (p : List Nat) : List Nat → Bool
 
 /-- `_markup_is_url` (bs4/__init__.py:561-575): starts with `http:`/`https:` and holds no space -/
 def markupIsUrl (m : Markup) : Bool :=
-  Gen.urlPrefixes.any (fun p => p.isPrefixOf m.units) && !(m.units.contains 32)
+  Gen.C06.urlPrefixes.any (fun p => p.isPrefixOf m.units) && !(m.units.contains 32)
 
 def isSurrogate (c : Nat) : Bool := decide (0xD800 ≤ c) && decide (c ≤ 0xDFFF)
 
@@ -86,8 +146,8 @@ def rfind (x : Nat) (l : List Nat) : Option Nat := rfindAux x l 0 none
 /-- `_markup_resembles_filename` after the conversion to bytes (bs4/__init__.py:602-648) -/
 def resemblesFilename (b : Bytes) : Bool :=
   let lower := b.map lowerAscii
-  if !(Gen.fileExtensions.any fun ext => ext.isSuffixOf lower) then false      -- :606-609
-  else if b.any (fun byte => Gen.shellChars.contains byte) then false          -- :619-621
+  if !(Gen.C06.fileExtensions.any fun ext => ext.isSuffixOf lower) then false      -- :606-609
+  else if b.any (fun byte => Gen.C06.shellChars.contains byte) then false          -- :619-621
   else if hasInfix [47, 47] b then false                                       -- :628
   else if hasInfix [32, 32] b then false                                       -- :630
   else if [58].isPrefixOf b then false                                         -- :635
@@ -139,7 +199,7 @@ def digitsToNat (base : Nat) (ds : List Nat) : Nat := ds.foldl (fun a d => a * b
     `sys.int_max_str_digits` digits (leading zeros count) with `ValueError`. -/
 def pyIntDec (s : PStr) : Except Err Nat :=
   if s.isEmpty || !s.all isDigit then .error .valueError
-  else if Gen.intMaxStrDigitsC06 ≠ 0 ∧ s.length > Gen.intMaxStrDigitsC06 then .error .valueError
+  else if Gen.C06.intMaxStrDigitsC06 ≠ 0 ∧ s.length > Gen.C06.intMaxStrDigitsC06 then .error .valueError
   else .ok (digitsToNat 10 (s.map (· - 48)))
 
 /-- `int(s, 16)` over the same alphabet: an optional `0x`/`0X` prefix, then at least one hex digit; no digit limit
@@ -167,7 +227,7 @@ inductive Dec1 where
 deriving DecidableEq, Repr
 
 def cp1252 (n : Nat) : Dec1 :=
-  match Gen.cp1252Decode[n]? with
+  match Gen.C06.cp1252Decode[n]? with
   | some (some c) => .ok [c]
   | _ => .decodeError
 
@@ -189,7 +249,7 @@ def tryDecode (catchAll : Bool) (d : Option (Nat → Dec1)) (n : Nat) (data : Op
 
 /-- :257-263 — `chr` (ValueError/OverflowError swallowed), then the U+FFFD default -/
 def charrefFinish (n : Nat) (data : Option PStr) : PStr :=
-  let data := if truthy data then data else if n ≤ Gen.maxUnicode then some [n] else data
+  let data := if truthy data then data else if n ≤ Gen.C06.maxUnicode then some [n] else data
   if truthy data then data.getD [] else [0xFFFD]
 
 def charrefFrom (catchAll : Bool) (orig : Option (Nat → Dec1)) (n : Nat) : Except Err PStr :=
@@ -207,7 +267,7 @@ def charrefFrom (catchAll : Bool) (orig : Option (Nat → Dec1)) (n : Nat) : Exc
 def handleCharref (orig : Option (Nat → Dec1)) (name : PStr) : Except Err PStr :=
   let n := match charrefNumber name with
     | .ok n => n
-    | .error _ => Gen.maxUnicode + 1
+    | .error _ => Gen.C06.maxUnicode + 1
   charrefFrom true orig n
 
 /-- `handle_charref` before the repairs: `int()`'s `ValueError` and a codec's non-`UnicodeDecodeError` escape -/
@@ -220,10 +280,10 @@ def handleCharrefOld (orig : Option (Nat → Dec1)) (name : PStr) : Except Err P
     and anything that is not a code point becomes U+FFFD -/
 def charrefSpec (n : Nat) : PStr :=
   if n < 256 then
-    match Gen.cp1252Decode[n]? with
+    match Gen.C06.cp1252Decode[n]? with
     | some (some c) => [c]
     | _ => [n]
-  else if n ≤ Gen.maxUnicode then [n]
+  else if n ≤ Gen.C06.maxUnicode then [n]
   else [0xFFFD]
 
 /-- `handle_entityref` (:266-284): table hit or the literal `&name` — total whatever the table -/
@@ -280,11 +340,11 @@ structure DammitResult where
   unicodeMarkup : Option PStr
   originalEncoding : Option Nat
   containsReplacement : Bool
-deriving Repr
+deriving Repr, DecidableEq
 
 /-- the guard of the second pass negated: `if not u:` (dammit.py:817) — or `if u is None:` once C07's repair is in;
     which one the live source has is read by the translator -/
-def firstPassEnough (u : Option PStr) : Bool := if Gen.dammitRetriesOnEmpty then truthy u else u.isSome
+def firstPassEnough (u : Option PStr) : Bool := if Gen.C06.dammitRetriesOnEmpty then truthy u else u.isSome
 
 /-- `UnicodeDammit.__init__` for non-empty bytes, given the candidate list `detector.encodings` yields (the same both
     times: C07 models the generator) -/
@@ -358,8 +418,8 @@ def retry {V : Type} (m : Machine V) : Obj V → List Strategy → Obj V × Exce
 /-- two objects agree on every field outside `X` -/
 def AgreeOff {V : Type} (X : List Field) (a b : Obj V) : Prop := ∀ f, f ∉ X → a f = b f
 
-/-- the assumptions that make a `Machine` a model of the code (checked against the live object: `Gen.resetAssigns`,
-    `Gen.headerAssigns`, `Gen.feedTouches`; measured per case by the fault-injection stream) -/
+/-- the assumptions that make a `Machine` a model of the code (checked against the live object: `Gen.C06.resetAssigns`,
+    `Gen.C06.headerAssigns`, `Gen.C06.feedTouches`; measured per case by the fault-injection stream) -/
 structure Machine.WF {V : Type} (m : Machine V) (R H : List Field) : Prop where
   headerKeys : ∀ s, (m.header s).map Prod.fst = H
   freshKeys : ∀ o, (m.fresh o).map Prod.fst = R
@@ -406,10 +466,8 @@ def parserFeed {V : Type} (p : Parser V) (o : Obj V) : Obj V × Option Err :=
   | (o', some e) => (o', some e)
   | (o', none) => (o', t.2)
 
-/-- Python's `ValueError` and its subclasses (`UnicodeError` ⊂ `ValueError`) among the classes of `Err` -/
-def Err.isValueError : Err → Bool
-  | .valueError | .unicodeEncodeError | .unicodeError => true
-  | _ => false
+/-- Python's `ValueError` and its subclasses (`UnicodeError` ⊂ `ValueError`, …) -/
+def Err.isValueError (e : Err) : Bool := e.isSub .valueError
 
 /-- `HTMLParserTreeBuilder.feed` (bs4/builder/_htmlparser.py:466-474) as repaired:
     `except (AssertionError, ValueError) as e: raise ParserRejectedMarkup(e)` — CPython's tokenizer raises
